@@ -503,7 +503,50 @@ def _(v):
     _slice_first(v)
 
 
-@P.task("from_particle.relations.core", fn="reb_orbit_from_particle_err", polyid_s=120)
+# ---- proof-structuring helpers (all sound by construction: they only weaken hypotheses or generalise) -------------
+def _uf_atoms(t):
+    out, seen, stack = set(), set(), [t]
+    while stack:
+        x = stack.pop()
+        if x.get_id() in seen:
+            continue
+        seen.add(x.get_id())
+        if z3.is_app(x) and x.num_args() > 0 and x.decl().kind() == z3.Z3_OP_UNINTERPRETED:
+            out.add(x.get_id())
+        stack.extend(x.children())
+    return out
+
+
+def focus(ob, extra=()):
+    """Drop every hypothesis that mentions an uninterpreted application (sqrt(..), acos(..), fmod quotient ...) that
+    does not occur in the goal (or in `extra` terms).  Dropping hypotheses is sound."""
+    allowed = _uf_atoms(ob.goal)
+    for t in extra:
+        allowed |= _uf_atoms(t)
+    ob.hyps = [h for h in ob.hyps if _uf_atoms(h) <= allowed]
+    return ob
+
+
+def generalize(v, ob, terms, prefix="gen"):
+    """Replace the given terms by fresh variables in goal and hypotheses (largest first).  Sound: the original
+    obligation is an instance of the generalised one."""
+    terms = sorted([z3.simplify(t) for t in terms] + list(terms), key=lambda t: -len(str(t)))
+    sub, seen = [], set()
+    for t in terms:
+        if t.get_id() in seen or z3.is_rational_value(t):
+            continue
+        seen.add(t.get_id())
+        sub.append((t, v.eng.fresh(prefix, z3.RealSort())))
+    both = {}
+    for t, x in sub:                     # a term and its simplified form get the same variable
+        both.setdefault(z3.simplify(t).get_id(), x)
+    sub = [(t, both[z3.simplify(t).get_id()]) for t, x in sub]
+    ob.hyps = [z3.substitute(h, *sub) for h in ob.hyps]
+    ob.goal = z3.substitute(ob.goal, *sub)
+    return ob
+
+
+@P.task("from_particle.relations.core", fn="reb_orbit_from_particle_err", polyid_s=60)
 def _(v):
     """Defining relations of d, v, a, h, hvec, evec, e, n, P, rhill (M&D 2.134-2.138; vis-viva; e = v x h/mu - r/|r|;
     Kepler III), for non-parabolic, non-error states."""
@@ -518,21 +561,25 @@ def _(v):
     h = _cross(d, w)
     v.prove("d", z3.And(o.d * o.d == _dot(d, d), o.d >= 0), order=("z3",))
     v.prove("v", z3.And(o.v * o.v == _dot(w, w), o.v >= 0), order=("z3",))
-    v.prove("a.vis_viva", _dot(w, w) == mu * (2 / o.d - 1 / o.a), order=PZ)
+    focus(v.prove("a.vis_viva", _dot(w, w) == mu * (2 / o.d - 1 / o.a), order=PZ))
     for k, c in enumerate("xyz"):
         v.prove("hvec." + c, getattr(o.hvec, c) == h[k], order=PZ)
     v.prove("h", z3.And(o.h * o.h == _dot(h, h), o.h >= 0), order=("z3",))
     ev = [_cross(w, h)[k] / mu - d[k] / o.d for k in range(3)]
     for k, c in enumerate("xyz"):
-        v.prove("evec." + c, getattr(o.evec, c) == ev[k], order=PZ)
+        focus(v.prove("evec." + c, getattr(o.evec, c) == ev[k], order=PZ))
     oe = (o.evec.x, o.evec.y, o.evec.z)
     v.prove("e", z3.And(o.e * o.e == _dot(oe, oe), o.e >= 0), order=("z3",))
-    # energy-eccentricity relation: e^2 = 1 - h^2/(mu a)  (M&D 2.135 with p = h^2/mu = a(1-e^2))
-    v.prove("e.semilatus", _dot(h, h) == mu * o.a * (1 - o.e * o.e), order=PZ)
+    # energy-eccentricity relation: h^2 = mu a (1-e^2)  (M&D 2.26 with p = h^2/mu = a(1-e^2))
+    focus(v.prove("e.semilatus", _dot(h, h) == mu * o.a * (1 - o.e * o.e), order=PZ))
     # Kepler III: n^2 |a|^3 = mu, n has the sign of a, n P = 2 pi
-    cut(v, "a_nonzero", o.a != 0, order=DEF_ORDER)
-    v.prove("n.kepler3.bound", z3.Implies(o.a > 0, z3.And(o.n > 0, o.n * o.n * o.a * o.a * o.a == mu)), order=DEF_ORDER)
-    v.prove("n.kepler3.unbound", z3.Implies(o.a < 0, z3.And(o.n < 0, o.n * o.n * o.a * o.a * o.a == -mu)), order=DEF_ORDER)
-    v.prove("P", o.n * o.P == R(PI2), order=DEF_ORDER)
+    cut(v, "mu_positive", mu > 0, order=DEF_ORDER)
+    focus(v.prove("a_nonzero", o.a != 0, order=("z3",)))
+    v.assume(o.a != 0)
+    for nm, cond, sgn in (("bound", o.a > 0, 1), ("unbound", o.a < 0, -1)):
+        fact = z3.Implies(cond, z3.And(sgn * o.n > 0, o.n * o.n * o.a * o.a * o.a == sgn * mu))
+        generalize(v, focus(v.prove("n.kepler3." + nm, fact, order=("z3",))), [mu, o.a])
+        v.assume(fact)
+    generalize(v, focus(v.prove("P", o.n * o.P == R(PI2), order=("z3",))), [o.n, o.a])
     # Hill radius a (m/(3M))^(1/3)
-    v.prove("rhill", o.rhill * o.rhill * o.rhill * 3 * prim.m == o.a * o.a * o.a * p.m, order=PZ)
+    focus(v.prove("rhill", o.rhill * o.rhill * o.rhill * 3 * prim.m == o.a * o.a * o.a * p.m, order=PZ))
